@@ -125,7 +125,10 @@ func (mp *MotionProcessor) Process(rawFrame []byte) error {
 }
 
 func (mp *MotionProcessor) processSnapshot(frame *cptvframe.Frame) {
-	if mp.StartSnapshot {
+	if mp.StartSnapshot && mp.SnapshotRecording {
+		// A test recording is already in progress, don't start another one on top of it.
+		mp.StartSnapshot = false
+	} else if mp.StartSnapshot {
 		mp.log.Printf("making a snapshot")
 		mp.StartSnapshot = false
 		if err := mp.snapshotRecorder.StartRecording(mp.motionDetector.background, 0); err != nil {
